@@ -7,6 +7,7 @@
 package c08
 
 import (
+	"encoding/json"
 	"fmt"
 	"regexp"
 	"strings"
@@ -26,9 +27,10 @@ type prefix struct {
 }
 
 type suffix struct {
-	name string
-	f    *faults.Fault // fault striking in the suffix phase
-	slow bool
+	name  string
+	f     *faults.Fault // fault striking in the suffix phase
+	slow  bool
+	ghost string // "" | next | init-error | exit-error: a process that kept the identifier of an extension of the earlier generation (a fresh emulator: an identifier never issued) uses it once the new extension has registered
 }
 
 type scen struct {
@@ -61,6 +63,63 @@ type rec struct {
 	mark stack.Marks
 }
 
+const neverIssued = "11111111-2222-3333-4444-555555555555"
+
+// startGhost: see suffix.ghost. The identifier is the one handed to ext0 before the mark, if any.
+func (c scen) startGhost(w *stack.World) {
+	id := neverIssued
+	nreg := 0
+	for _, k := range w.Calls {
+		if k.Kind == "register" && k.Answered >= 0 && k.Status == 200 {
+			nreg++
+			if v := k.Header.Get("Lambda-Extension-Identifier"); v != "" && strings.HasPrefix(k.Actor, "ext:") {
+				id = v
+			}
+		}
+	}
+	g := &stack.Actor{W: w, P: w.K.Detached("/ghost"), Name: "ghost", Gen: 1, ExtID: id}
+	sched.Go("ghost", func() {
+		defer stack.QuietExit()
+		sched.Block("await-new-registration", nil, func() bool {
+			n := 0
+			for _, k := range w.Calls {
+				if k.Kind == "register" && k.Answered >= 0 && k.Status == 200 {
+					n++
+				}
+			}
+			return n > nreg
+		})
+		switch c.s.ghost {
+		case "next":
+			g.ExtNext()
+		case "init-error":
+			g.ExtInitError("Ghost.Error")
+		case "exit-error":
+			g.ExtExitError("Ghost.Error")
+		}
+	})
+}
+
+// ghostOutcome renders what the ghost saw.
+func ghostOutcome(w *stack.World) string {
+	out := ""
+	for _, k := range w.Calls {
+		if k.Actor != "ghost" {
+			continue
+		}
+		if k.Answered < 0 {
+			out += fmt.Sprintf("ghost %s -> (never answered)\n", k.Kind)
+			continue
+		}
+		var m struct {
+			ErrorType string `json:"errorType"`
+		}
+		json.Unmarshal(k.Body, &m)
+		out += fmt.Sprintf("ghost %s -> %d %s\n", k.Kind, k.Status, m.ErrorType)
+	}
+	return out
+}
+
 // body runs (optionally the prefix and its reset, then) the suffix: 3 invocations.
 func (c scen) body(cfg *stack.Config, withPrefix bool, devs bool) func() {
 	return func() {
@@ -86,6 +145,9 @@ func (c scen) body(cfg *stack.Config, withPrefix bool, devs bool) func() {
 		}
 		w.Phase = "suffix"
 		r.mark = w.Mark()
+		if c.s.ghost != "" {
+			c.startGhost(w)
+		}
 		for i := 0; i < 3; i++ {
 			if i == 1 {
 				sched.Region(false)
@@ -104,7 +166,7 @@ func (c scen) run(ctx *hx.Ctx) *hx.ScenarioResult {
 	var pristine string
 	ref := sched.Run(&sched.ReplayStrategy{}, 100000, false, c.body(cfgP, false, false))
 	if w := stack.WorldOf(ref); w != nil && ref.Status() == sched.Finished && ref.Crash == nil {
-		pristine = maskReason(w.ActorTrace(ref.Values["rec"].(*rec).mark))
+		pristine = maskReason(w.ActorTrace(ref.Values["rec"].(*rec).mark)) + ghostOutcome(w)
 	}
 	cleanP()
 	// reference 2: the suffix after the reference prefix (healthy + explicit reset), everything included
@@ -115,7 +177,7 @@ func (c scen) run(ctx *hx.Ctx) *hx.ScenarioResult {
 	var platformRef string
 	ref2 := sched.Run(&sched.ReplayStrategy{}, 100000, false, refScen.body(cfgR, true, false))
 	if w := stack.WorldOf(ref2); w != nil && ref2.Status() == sched.Finished && ref2.Crash == nil {
-		platformRef = w.ActorTrace(ref2.Values["rec"].(*rec).mark) + w.PlatformTrace(ref2.Values["rec"].(*rec).mark)
+		platformRef = w.ActorTrace(ref2.Values["rec"].(*rec).mark) + ghostOutcome(w) + w.PlatformTrace(ref2.Values["rec"].(*rec).mark)
 	}
 	cleanR()
 
@@ -134,8 +196,8 @@ func (c scen) run(ctx *hx.Ctx) *hx.ScenarioResult {
 			return "noref", "", &sched.Failure{Clause: "engine", Sig: "no-reference", Msg: "the reference runs did not finish"}
 		}
 		m := e.Values["rec"].(*rec).mark
-		full := w.ActorTrace(m)
-		got := maskReason(full)
+		full := w.ActorTrace(m) + ghostOutcome(w)
+		got := maskReason(w.ActorTrace(m)) + ghostOutcome(w)
 		var fail *sched.Failure
 		if got != pristine {
 			fail = &sched.Failure{Clause: "1", Sig: "suffix-differs-from-fresh:" + diffClass(pristine, got), Msg: "after prefix " + c.p.name + " + reset the suffix does not look like the same suffix on a fresh emulator\n--- fresh\n" + pristine + "--- after reset\n" + got + "\n" + w.Render(false)}
@@ -228,6 +290,9 @@ func suffixes(next int) []suffix {
 		ss = append(ss,
 			suffix{name: "ext-exit-error-slowrt", slow: true, f: &faults.Fault{Who: "ext0", Point: "exit-error", Action: "exit1", At: 1}},
 			suffix{name: "ext-crash-idle", f: &faults.Fault{Who: "ext0", Point: "idle", Action: "sig9", At: 1}},
+			suffix{name: "ghost-next", ghost: "next"},
+			suffix{name: "ghost-init-error", ghost: "init-error"},
+			suffix{name: "ghost-exit-error", ghost: "exit-error"},
 		)
 	}
 	return ss
@@ -260,6 +325,12 @@ func init() {
 					continue
 				}
 				add(scen{next: next, p: p, s: suffixes(next)[0], bound: lb})
+			}
+		}
+		// the ghost of an old extension, moved around by deviations
+		for _, g := range []string{"next", "exit-error"} {
+			for _, pi := range []int{0, 6} {
+				add(scen{next: 1, p: prefixes(1)[pi], s: suffix{name: "ghost-" + g, ghost: g}, bound: lb})
 			}
 		}
 		return out
